@@ -32,6 +32,7 @@ ModelRes(op, k) ==
   CASE op = "put"      -> IF closed THEN "err" ELSE "ok"
     [] op = "has"      -> IF closed THEN "err" ELSE IF k \in idx THEN "true" ELSE "false"
     [] op = "get"      -> IF closed THEN "err" ELSE IF k \in idx THEN "found" ELSE "notfound"
+    [] op = "getsize"  -> IF closed THEN "err" ELSE IF k \in idx THEN "found" ELSE "notfound"
     [] op = "keys"     -> IF closed THEN "err" ELSE "set"
     [] op = "finalize" -> IF closed THEN "err" ELSE "ok"
     [] OTHER -> "?"
